@@ -16,12 +16,16 @@ pub struct Sorter {
     #[allow(clippy::type_complexity)]
     ordering: Box<dyn Fn(&Data, &Data) -> Result<Ordering, EvalError> + Send + Sync>,
     direction: SortDirection,
+    /// no sort keys were given: the rows are ordered by all their columns
+    keyless: bool,
 }
 
 impl Sorter {
     pub fn new(exprs: Vec<Expr>, direction: SortDirection) -> Self {
+        let keyless = exprs.is_empty();
         let ordering = Box::new(Record::ordering(exprs));
         Sorter {
+            keyless,
             state: Vec::new(),
             columns: Vec::new(),
             direction,
@@ -55,10 +59,14 @@ impl AggregateOperator for Sorter {
                     .then(second_ordering(l, r))
             });
         } else {
+            // `sort desc` without keys orders by all the columns, and the direction applies to them
+            let keyless = self.keyless;
             sorted_data.sort_by(|l, r| {
-                ((order)(r, l))
-                    .unwrap_or(Ordering::Less)
-                    .then(second_ordering(l, r))
+                ((order)(r, l)).unwrap_or(Ordering::Less).then(if keyless {
+                    second_ordering(r, l)
+                } else {
+                    second_ordering(l, r)
+                })
             });
         }
         Aggregate {
